@@ -291,3 +291,24 @@ def leaf_stores(ff, name: str, before: Optional[int] = None, depth: int = 0):
                     continue
             out.append(s)
     return out
+
+
+def control_result_args(prog, call):
+    """fields of a StepControlResult construction, for either spelling: StepControlResult(iterate, lamb, active_set, rcond,
+    accepted) or StepControlResult.from_step_result(step_result, lamb, accepted) (iterate / active_set / rcond are then the
+    step result's members).  None if `call` is neither."""
+    if not isinstance(call, ast.Call):
+        return None
+    d = dotted(call.func) or ""
+    if d == "StepControlResult":
+        return bind_args(prog.func("pygradflow.step.step_control.StepControlResult.__init__"), call)
+    if d.endswith("StepControlResult.from_step_result"):
+        b = bind_args(prog.func("pygradflow.step.step_control.StepControlResult.from_step_result"), call)
+        if b is None:
+            return None
+        sr = b["step_result"]
+        out = {"lamb": b["lamb"], "accepted": b["accepted"]}
+        for m in ("iterate", "active_set", "rcond"):
+            out[m] = ast.copy_location(ast.Attribute(value=sr, attr=m, ctx=ast.Load()), call)
+        return out
+    return None
